@@ -15,6 +15,8 @@ RULE = ("sequential: one resource with 1-3 throttling rules (30% of the cases tw
         "the cases reload the rule list in the middle of the traffic, one thing changed at a time (identical list, no-op, MaxQueueingTimeMs, "
         "threshold, StatIntervalInMs incl. 0<->1000, rule added / removed / order swapped; 20% of the reloads go through an empty rule set "
         "(ClearRules, ClearRulesOfResource, empty load / loadres) and back to the same or a changed list; 40% of all (re)loads go through "
+        "flow.LoadRulesOfResource instead of flow.LoadRules; up to 4 throttling rules plus never-blocking Reject rules (`rj`) of the same resource in "
+        "between; 30% of the reloads are armed with `onsleep` and performed by the virtual clock while a request sleeps for one of the rules; "
         "flow.LoadRulesOfResource instead of flow.LoadRules (an identical list is then replaced by: every rule kept + one appended / order swapped); a rule of another resource comes or goes so that the "
         "reload is a real one) followed by callers at the same instant and callers one to two intervals apart; per rule (threshold from integers, fractions, 0, -0, subnormal, huge, +Inf and values that put "
         "b*I/T next to an integer; statIntervalMs incl. 0 and 2^32-1; maxQueueingTimeMs incl. 0, k*interval and k*interval+-1), 10-60 "
@@ -130,6 +132,8 @@ def reload_py(ctls, rules):
     """mirror of Throttle.reload: ctls = [[rule, last], ...]"""
     old, out = list(ctls), []
     for r in rules:
+        if r[0] == "rj":          # a never-blocking Reject rule: only its place in the code's controller list matters
+            continue
         for i, c in enumerate(old):
             if rule_eq(c[0], r):
                 out.append(old.pop(i))
@@ -153,9 +157,10 @@ def chain_py(ctls, now, b):
 
 def fmt_rules(rules, other, perres=False):
     """`load` = flow.LoadRules (complete rule set, `other` = a rule of another resource), `loadres` = flow.LoadRulesOfResource"""
+    toks = " ".join((f"rj:{r[1]}" if r[1] else "rj") if r[0] == "rj" else f"{fb(r[0])} {r[1]} {r[2]}" for r in rules)
     if perres:
-        return ("loadres " + " ".join(f"{fb(T)} {I} {mq}" for T, I, mq in rules)).strip()
-    return ("load " + " ".join(f"{fb(T)} {I} {mq}" for T, I, mq in rules) + (f" other={other}" if other else "")).strip()
+        return ("loadres " + toks).strip()
+    return ("load " + toks + (f" other={other}" if other else "")).strip()
 
 
 def vary(rng, rule, field):
@@ -206,9 +211,12 @@ def _gen_seq(rng, cid, nmin, nmax, vary, pick_rule):
     if r < 0.30:
         k = rng.random()
         rules.append(rules[0] if k < 0.5 else vary(rng, rules[0], rng.choice(["mq", "T", "I"])) if k < 0.8 else pick_rule(rng))
-        if rng.random() < 0.12:
-            rules.append(rng.choice(rules))
+        if rng.random() < 0.35:
+            rules.append(rng.choice(rules + [vary(rng, rules[0], "T")]))
+        if rng.random() < 0.25:
+            rules.insert(rng.randrange(len(rules) + 1), ("rj", rng.choice([0, 0, 1, 2])))
     reloady = rng.random() < 0.45
+    pending = None            # a reload armed with `onsleep`: performed during the next sleep
     other = 0
     ops = [fmt_rules(rules, other, rng.random() < 0.3)]
     ctls = reload_py([], rules)
@@ -217,9 +225,10 @@ def _gen_seq(rng, cid, nmin, nmax, vary, pick_rule):
     burst = 0
     kinds = []
     for _ in range(rng.randint(nmin, nmax)):
-        if reloady and burst == 0 and rng.random() < 0.10:
+        if reloady and burst == 0 and pending is None and rng.random() < 0.10:
             k = rng.random()
-            i = rng.randrange(len(rules))
+            i = rng.choice([j for j, r_ in enumerate(rules) if r_[0] != "rj"])
+            nthr = sum(1 for r_ in rules if r_[0] != "rj")
             real = True
             if rng.random() < 0.20:
                 # through an empty rule set and back: ClearRules / ClearRulesOfResource / load of an empty list, a few unthrottled
@@ -256,10 +265,13 @@ def _gen_seq(rng, cid, nmin, nmax, vary, pick_rule):
             elif k < 0.80:
                 kind = "I"
                 rules = rules[:i] + [vary(rng, rules[i], "I")] + rules[i + 1:]
-            elif k < 0.88 and len(rules) < 3:
+            elif k < 0.90 and nthr < 4 and len(rules) < 6:
                 kind = "add"
-                rules = rules + [rng.choice([rules[i], vary(rng, rules[i], "mq"), pick_rule(rng)])]
-            elif k < 0.95 and len(rules) > 1:
+                extra = rng.choice([rules[i], vary(rng, rules[i], "mq"), pick_rule(rng), ("rj", rng.choice([0, 1, 2, 3])), ("rj", rng.choice([0, 1]))])
+                if extra[0] == "rj" and sum(1 for r_ in rules if r_[0] == "rj") >= 2:
+                    extra = rules[i]
+                rules = rules + [extra] if rng.random() < 0.7 else rules[:i] + [extra] + rules[i:]
+            elif k < 0.95 and nthr > 1:
                 kind = "remove"
                 rules = rules[:i] + rules[i + 1:]
             elif len(rules) > 1:
@@ -272,7 +284,7 @@ def _gen_seq(rng, cid, nmin, nmax, vary, pick_rule):
                 if perres and kind == "same":
                     # LoadRulesOfResource has no other resource to toggle: an identical list would be skipped, so keep every rule
                     # and change the list around them (a duplicate / variant is appended, or the order is swapped)
-                    if len(rules) < 3:
+                    if nthr < 4 and len(rules) < 6:
                         kind = "add"
                         rules = rules + [rng.choice([rules[i], vary(rng, rules[i], "mq"), vary(rng, rules[i], "T")])]
                     else:
@@ -280,11 +292,17 @@ def _gen_seq(rng, cid, nmin, nmax, vary, pick_rule):
                         rules = rules[::-1]
                 if real and not perres:
                     other = 1 - other if other in (0, 1) else 0      # another resource's rule comes or goes: the reload is a real one
-                ops.append(fmt_rules(rules, other, perres))
-                ctls = reload_py(ctls, rules)
-                kinds.append(kind + ("/res" if perres else ""))
+                if rng.random() < 0.30:
+                    # the reload happens while a request sleeps for one of the rules (armed; performed by the clock's Sleep)
+                    ops.append("onsleep " + fmt_rules(rules, other, perres))
+                    pending = list(rules)
+                    kinds.append(kind + ("/res" if perres else "") + "@sleep")
+                else:
+                    ops.append(fmt_rules(rules, other, perres))
+                    ctls = reload_py(ctls, rules)
+                    kinds.append(kind + ("/res" if perres else ""))
                 burst = rng.choice([2, 3, 4])
-        T, I_ms, mq = rules[rng.randrange(len(rules))]
+        T, I_ms, mq = rng.choice([r_ for r_ in rules if r_[0] != "rj"])
         I = (I_ms or 1000) * MS
         maxq = mq * MS
         b = pick_batch(rng, T) if burst == 0 else 1
@@ -307,7 +325,10 @@ def _gen_seq(rng, cid, nmin, nmax, vary, pick_rule):
         ops.append(f"req {b}")
         slept, _ = chain_py(ctls, clk, b)
         clk += slept
-    T, I_ms, mq = rules[0] if rules else (0.0, 0, 0)
+        if pending is not None and slept > 0:
+            ctls = reload_py(ctls, pending)      # same controllers as a reload after the request (Sentinel.C10.chainReload_eq)
+            pending = None
+    T, I_ms, mq = next(r_ for r_ in rules if r_[0] != "rj")
     return Case(cid, ops, tags=("seq", f"T={T!r}", f"I={I_ms}", f"mq={mq}", f"rules={len(ctls)}", "reloads=" + ",".join(kinds)))
 
 
